@@ -204,6 +204,15 @@ example : posToLineCol "ab\ncd\r\n\nx".toList 9 = (4, 2) := by decide
 example : getLocation exHeap (fun _ => "m a b\nc d".toList) (fun _ => some 7) 5 3
     = some { line := 2, col := 1, nchar := 1, file := some 7 } := by decide
 
+/-! the hypotheses of `C06_location_built` on this model: the parse tree passes `wfB` against the input, object 3 is
+contained in the root, also after a reference was stored (`exRefAttr` of `Props/C05.lean`) -/
+example : exTree.wfB ("m a b\nc d".toList).length = true := by decide
+example : Reach exHeap (fun _ => true) 0 2 :=
+  Reach.down (c := 1) (by decide) rfl (Reach.down (c := 2) (by decide) rfl (Reach.here (by decide)))
+example : RefUpdates exHeap (exHeap.updAttr 0 9 (fun _ => .one (.obj 0))) := .step 0 9 _ (.refl _) exRefAttr
+example : getLocation (exHeap.updAttr 0 9 (fun _ => .one (.obj 0))) (fun _ => "m a b\nc d".toList) (fun _ => some 7) 5 3
+    = some { line := 2, col := 1, nchar := 1, file := some 7 } := by decide
+
 /-! several models in one heap (a model that imports another one): objects 0-1 belong to the model rooted at 0
 (file 1, text `"\nitem a"`), objects 2-3 to the model rooted at 2 (no file name, text `"x\n\n item b"`); object 1
 refers to object 3 (not a containment).  Each location uses the input and the file name of the object's own root. -/
